@@ -1,2 +1,62 @@
-(* C05 - statements are added as proofs land. *)
-From ZV Require Import Str Zerv Bump Cli.
+(* C05 - override, bump and reset semantics follow the precedence order.
+   Model: Model/Bump.v (bump/*.rs) + Model/Cli.v (argument resolution, context overrides, zerv_draft). *)
+From ZV Require Import Str Zerv Bump Cli BumpProofs.
+
+(* the engine IS a single pass over the precedence order, override-then-bump per level (by definition of the model;
+   stated so that a change of shape is visible) *)
+Theorem c05_is_level_fold : forall a z,
+  apply_component_processing a z =
+  fold_left (fun acc p => match acc with Some z' => process_level a z' p | None => None end) (prec_order (z_schema z)) (Some z).
+Proof. reflexivity. Qed.
+
+(* resetting after a bump at level p touches the levels AFTER p in the order and nothing else
+   (the only coupling: clearing the pre-release label clears its number, which the default order places later anyway) *)
+Theorem c05_reset_frame : forall order vs p vs' later,
+  reset_lower order vs p = Some vs' -> levels_after order p = Some later ->
+  forall q, ~ In q later -> (q = PPreNum -> ~ In PPreLabel later) -> obs q vs' = obs q vs.
+Proof. exact reset_lower_frame. Qed.
+
+(* a numeric field operation (epoch, major, minor, patch, post, dev - by name or reached through a schema index) never
+   changes a higher level: everything except its own level and the later ones is left as it was *)
+Theorem c05_no_higher_level_changes : forall order get set lvl ov bv vs vs' later,
+  numeric_level lvl get set ->
+  process_num order get set lvl ov bv vs = Some vs' -> levels_after order lvl = Some later ->
+  forall q, q <> lvl -> ~ In q later -> (q = PPreNum -> ~ In PPreLabel later) -> obs q vs' = obs q vs.
+Proof. exact process_num_frame. Qed.
+
+(* an override alone changes nothing but its own level *)
+Theorem c05_override_local : forall order get set lvl x vs vs',
+  numeric_level lvl get set -> process_num order get set lvl (Some x) None vs = Some vs' ->
+  forall q, q <> lvl -> obs q vs' = obs q vs.
+Proof. exact override_only_touches_its_level. Qed.
+
+(* what a reset does to a level: numbers to 0, pre-release / post / dev to absent *)
+Theorem c05_reset_effect : forall vs p,
+  match p with
+  | PEpoch | PMajor | PMinor | PPatch => obs p (reset_level vs p) = LNum (Some 0)
+  | PPreLabel => obs p (reset_level vs p) = LLabel None
+  | PPost | PDev => obs p (reset_level vs p) = LNum None
+  | PPreNum => obs p (reset_level vs p) = LPreNum (omap (fun _ => Some 0) (v_pre vs))
+  | _ => True
+  end.
+Proof. exact reset_level_effect. Qed.
+
+(* the six numeric levels are numeric levels *)
+Theorem c05_numeric_levels :
+  numeric_level PMajor v_major set_major /\ numeric_level PMinor v_minor set_minor /\ numeric_level PPatch v_patch set_patch /\
+  numeric_level PEpoch v_epoch set_epoch /\ numeric_level PPost v_post set_post /\ numeric_level PDev v_dev set_dev.
+Proof. repeat split; [exact numeric_major|exact numeric_minor|exact numeric_patch|exact numeric_epoch|exact numeric_post|exact numeric_dev]. Qed.
+
+(* non-vacuity: bump minor on 1.2.3-rc.4.post.5 resets patch, pre-release and post, leaves major *)
+Example c05_ex :
+  let vs := set_post (set_pre (set_patch (set_minor (set_major empty_vars (Some 1)) (Some 2)) (Some 3)) (Some {| pr_label := Rc; pr_num := Some 4 |})) (Some 5) in
+  option_map (fun v => (v_major v, v_minor v, v_patch v, v_pre v, v_post v)) (process_minor default_prec None (Some 1) vs)
+  = Some (Some 1, Some 3, Some 0, None, None).
+Proof. vm_compute. reflexivity. Qed.
+
+Print Assumptions c05_is_level_fold.
+Print Assumptions c05_reset_frame.
+Print Assumptions c05_no_higher_level_changes.
+Print Assumptions c05_override_local.
+Print Assumptions c05_reset_effect.
+Print Assumptions c05_numeric_levels.
